@@ -81,6 +81,8 @@ def ad_run(mon, rng):
     for st in tr.steps:
         if st["crash"] is None and not st.get("after_completion"):
             runchecks.check_discard(mon, tr, st)
+            # the witnesses must come from the pessimistic Pareto set of the CURRENT active nodes (2x2 cones: exact oracle)
+            runchecks.check_pess(mon, tr, st)
 
 
 def directed_auer_emp(mon, rng):
